@@ -15,7 +15,7 @@ from vlib.view import view, L
 from mirsym import Program, Interp, models, Lazy, Opaque, syn_models, harness_models  # noqa: F401
 from props import recv_spec as S
 from props.recv_common import (Oracle, E, Item, list_items, flat_errors, match_errors, value_eqs, Text, render_items, ident_validity,
-                               native_value, model_str, OPTS)
+                               native_value, model_str, OPTS, replay_panic)
 from props.C12 import rep
 
 # non-magic fields of the element-level receivers in harness/hderive
@@ -123,6 +123,64 @@ def merged_items(ck, l, at, spec):
     return items, errs, fwd_expected, shape
 
 
+def witness_src(ck, l, spec, rn, shape, uniq):
+    """source text of an element carrying the attributes described by `shape`"""
+    mdl = ck.model_of(list(l.pc) + ident_validity(l)) or ck.model_of(l.pc)
+    parts = []
+    for sk, name, base in shape:
+        lead = "::" if l.decisions.get(base + ".meta.path.leading_colon#d") == 1 else ""
+        if name is None:
+            nseg = l.decisions.get(base + ".meta.path.segments#len", 1)
+            segs = []
+            for j in range(nseg):
+                uniq[0] += 1
+                segs.append(model_str(mdl, z3.String("%s.meta.path.segments[%d].ident.sym" % (base, j)), "zq%d" % uniq[0]))
+            name = "::".join(segs)
+            if nseg > 1:
+                ck.reach("qualified")
+            if name in spec["names"] and not lead:
+                name = "zq%d" % uniq[0]
+        form = l.decisions.get(base + ".meta#d")
+        if sk in ("other",):
+            body = {0: "", 2: ' = "v"', 1: "(a, =)", None: "(anything goes)"}[form] if name != "doc" else ' = "d"'
+            parts.append("#[%s%s%s]" % (lead, name, body))
+        elif sk == "bare":
+            parts.append("#[%s]" % name)
+        elif sk == "nv":
+            parts.append('#[%s = "v"]' % name)
+        elif sk == "badlist":
+            parts.append("#[%s(=)]" % name)
+        else:
+            t = Text()
+            render_items(l, mdl, base + ".meta.List.0.tokens.parsed.Ok.0", t, uniq)
+            parts.append("#[%s(%s)]" % (name, t.s))
+    src = " ".join(parts) + " " + (spec["wrap"] or "")
+    if spec["wrap"] is None:
+        src = "struct Foo<%s T> { %s f: u8 }" % (" ".join(parts) if rn == "T1" else "", " ".join(parts) if rn == "F1" else "")
+    return src, mdl
+
+
+def loose_shape(l, at, spec):
+    """shape of the attribute vector for a witness when some forms were never decided (panic leaves)"""
+    shape = []
+    for j in range(l.decisions.get(at + "#len", 0)):
+        base = "%s[%d]" % (at, j)
+        sel, forwarded, name = attr_class(None, l, base, spec["names"], spec["fwd"])
+        if sel is None:
+            shape.append(("other", name, base))
+            continue
+        form = l.decisions.get(base + ".meta#d")
+        if form in (0, None):
+            shape.append(("bare", sel, base))
+        elif form == 2:
+            shape.append(("nv", sel, base))
+        elif l.decisions.get(base + ".meta.List.0.tokens.parsed#d") == 1:
+            shape.append(("badlist", sel, base))
+        else:
+            shape.append(("list", sel, base))
+    return shape
+
+
 def job(ck, prog, natbin, rn, M, K, colon, quick):
     spec = SPECS[rn]
     r = spec["r"]
@@ -136,6 +194,10 @@ def job(ck, prog, natbin, rn, M, K, colon, quick):
     uniq = [0]
     cnt = 0
     for l in leaves:
+        if l.status == "panicked":
+            psrc = witness_src(ck, l, spec, rn, loose_shape(l, at, spec), uniq)[0]
+            replay_panic(ck, native, rn, l, "(di %s %s)" % (rn, sx_str(psrc)), {"crate": "hderive"})
+            continue
         if l.status != "returned":
             ck.obligations += 1
             ck.engine("%s: leaf %s %s" % (rn, l.status, l.info or l.panics))
@@ -194,39 +256,7 @@ def job(ck, prog, natbin, rn, M, K, colon, quick):
                 good, why = False, "accepted although %r" % (val,)
             else:
                 good, why = match_errors(val, flat_errors(got["0"], l), l, check_spans=False)
-        # witness source text
-        mdl = ck.model_of(list(l.pc) + ident_validity(l)) or ck.model_of(l.pc)
-        parts = []
-        for sk, name, base in shape:
-            lead = "::" if l.decisions.get(base + ".meta.path.leading_colon#d") == 1 else ""
-            if name is None:
-                nseg = l.decisions.get(base + ".meta.path.segments#len", 1)
-                segs = []
-                for j in range(nseg):
-                    uniq[0] += 1
-                    segs.append(model_str(mdl, z3.String("%s.meta.path.segments[%d].ident.sym" % (base, j)), "zq%d" % uniq[0]))
-                name = "::".join(segs)
-                if nseg > 1:
-                    ck.reach("qualified")
-                if name in spec["names"] and not lead:
-                    name = "zq%d" % uniq[0]
-            form = l.decisions.get(base + ".meta#d")
-            if sk in ("other",):
-                body = {0: "", 2: ' = "v"', 1: "(a, =)", None: "(anything goes)"}[form] if name != "doc" else ' = "d"'
-                parts.append("#[%s%s%s]" % (lead, name, body))
-            elif sk == "bare":
-                parts.append("#[%s]" % name)
-            elif sk == "nv":
-                parts.append('#[%s = "v"]' % name)
-            elif sk == "badlist":
-                parts.append("#[%s(=)]" % name)
-            else:
-                t = Text()
-                render_items(l, mdl, base + ".meta.List.0.tokens.parsed.Ok.0", t, uniq)
-                parts.append("#[%s(%s)]" % (name, t.s))
-        src = " ".join(parts) + " " + (spec["wrap"] or "")
-        if spec["wrap"] is None:
-            src = "struct Foo<%s T> { %s f: u8 }" % (" ".join(parts) if rn == "T1" else "", " ".join(parts) if rn == "F1" else "")
+        src, mdl = witness_src(ck, l, spec, rn, shape, uniq)
         req = "(di %s %s)" % (rn, sx_str(src))
         cnt += 1
         do_native = (not good) or cnt % (3 if quick else 7) == 0
